@@ -18,7 +18,7 @@ _sp.loader.exec_module(c20)
 _sp16 = importlib.util.spec_from_file_location('c16opt_for_c06', os.path.join(here, '..', 'C16', 'opt_proofs.py'))
 c16opt = importlib.util.module_from_spec(_sp16)
 _sp16.loader.exec_module(c16opt)
-PROOFS = ([p for p in c09.PROOFS if p.name in _dec] + tokenizer_proofs.select(['tok_layout', 'parse_whitespace', 'parse_newline', 'parse_bs_newline', 'parse_off_newlines', 'parse_next_head'])
+PROOFS = ([p for p in c09.PROOFS if p.name in _dec] + tokenizer_proofs.select(['tok_layout', 'parse_whitespace', 'parse_newline', 'parse_bs_newline', 'parse_off_newlines', 'parse_next_head', 'parse_cr_string', 'tag_compare'])
           + [p for p in c20.all_proofs() if p.name in ('newlines_eat_start_end', 'newlines_eat_start_end_single')]
           + [p for p in c16opt.all_proofs() if p.name in ('read_number_signed', 'read_number_unsigned', 'bool_read')])
 from prover import Proof, REPO  # noqa: E402
@@ -62,7 +62,7 @@ EXPLANATION = ('Kernel of C06. CBMC\'s automatic obligations (container precondi
                'are the property\'s "never by a memory-safety/undefined-behaviour fault", and the decreases clauses of the loop contracts its "terminates", for every byte '
                'vector / code-point sequence of any length: all decoders of src/unicode.cpp and the white-space primitives of the tokenizer, with progress contracts '
                '(true => cursor advanced, false => cursor restored exactly). Malformed UTF-8/UTF-16 is refused.')
-K = ['K8 find_start_brace (mod_infinite_loop): the walk to the body of a loop ends on every list', 'K7 check_template (forward scan, one iteration under the loop invariant): no access to the bracket stack tokens[max_token_count] leaves the array, however deeply the input nests < and (', 'K5 newlines_eat_start_end: no chunk is deleted twice or touched after its deletion, also when the file is a single newline chunk (head == tail)',
+K = ['K9 parse_cr_string (raw string literals): progress or restore, termination of all four loops (also when the data ends inside the literal), tag_compare only called with both delimiters inside the data', 'K8 find_start_brace (mod_infinite_loop): the walk to the body of a loop ends on every list', 'K7 check_template (forward scan, one iteration under the loop invariant): no access to the bracket stack tokens[max_token_count] leaves the array, however deeply the input nests < and (', 'K5 newlines_eat_start_end: no chunk is deleted twice or touched after its deletion, also when the file is a single newline chunk (head == tail)',
      'K6 configuration values: read_number / Option<bool>::read never read outside the value text, for every text (including the empty one)',
      'K4 uncrustify_file: output_text exactly once and last; an embedded NUL exits before uncrustify_start', 'K1 unicode.cpp decoders: safe and terminating for any length; |out| <= |in|', 'K2 tokenizer white-space primitives: safe, terminating, progress/restore']
 G = ['tokenize() main loop terminates given progress of parse_next: parse_next\'s progress contract is proved only for the leaf callees listed here; for parse_number, parse_string, parse_word, parse_comment, ... it is an ASSUMED contract',
